@@ -169,7 +169,7 @@ func genC03(t *rapid.T) any {
 			tb.Cols = append(tb.Cols, gc)
 		}
 		tb.Cols = append(tb.Cols, sch.valCols...)
-		c.Where = genPred(t, tb, &PredSpec{Core: true}, rapid.IntRange(0, 2).Draw(t, "wdepth"), "w")
+		c.Where = genPred(t, tb, &PredSpec{Core: rapid.Bool().Draw(t, "wcore")}, rapid.IntRange(0, 2).Draw(t, "wdepth"), "w")
 	}
 	if c.Shape != "whole" {
 		k := rapid.IntRange(1, ng).Draw(t, "nkeys")
